@@ -87,7 +87,8 @@ class FunctionInteractionsUtils(object):
 
         splits = [DDSPathUtils.split(p) for p in non_empty_paths]
         # _logger.debug("non_terminal splits: %s", splits)
-        groups = itertools.groupby(splits, lambda x: x[0])
+        # groupby only merges adjacent items: sort by the first segment so that the call order does not matter
+        groups = itertools.groupby(sorted(splits, key=lambda x: x[0]), lambda x: x[0])
         for (key, l) in groups:
             sub: List[DDSPath] = [(p if p is not None else empty_path) for (_, p) in l]
             # _logger.debug("non_terminal: %s %s", key, sub)
